@@ -2,11 +2,11 @@ INIT Init
 NEXT Next
 CONSTANTS
   FactorNames <- N_tiny
-  Powers <- P_pm3
+  Powers <- P_pm2
   MaxFactors = 2
   Mags <- M_two
   TargetNames <- N_tiny
-  TargetPowers <- P_pm3
+  TargetPowers <- P_pm2
   MaxTFactors = 2
   ScaleKs <- K_two
   Kinds = {"list", "array"}
